@@ -114,13 +114,14 @@ pub fn record(args: &[String]) {
         };
         writeln!(out, "{ev}").unwrap();
     }
-    // instants beyond the range the automaton walks (up to 9999-12-31): the civil fields come with the
+    // instants beyond the range the automaton walks (to 9999-12-31 and into five-digit years): the civil fields come with the
     // event and are validated by the closed form of Calendar.tla
     let far = n / 4;
     for i in 0..far {
         let (day, sod): (u64, u64) = match i % 6 {
             0 => (115_740, [63_999u64, 64_000][i / 6 % 2]),
-            1 => (2_932_896, 86_399),
+            1 => ([2_932_896u64, 2_932_897][i / 6 % 2], [86_399u64, 0][i / 6 % 2]),      // 9999-12-31 23:59:59, 10000-01-01 00:00:00
+            2 => (rng.gen_range(2_932_897..=3_000_000), rng.gen_range(0..86400)),       // five-digit years
             _ => (rng.gen_range(84_006..=2_932_896), rng.gen_range(0..86400)),
         };
         let p = pats[rng.gen_range(0..pats.len())];
